@@ -572,27 +572,27 @@ class Array:
 
     def sum(self, axis: int | None = 0, keepdims: bool | None = False) -> ndx.Array:
         """See :py:func:`ndonnx.sum` for documentation."""
-        return ndx.sum(self, axis=axis, keepdims=False)
+        return ndx.sum(self, axis=axis, keepdims=bool(keepdims))
 
     def prod(self, axis: int | None = 0, keepdims: bool | None = False) -> ndx.Array:
         """See :py:func:`ndonnx.prod` for documentation."""
-        return ndx.prod(self, axis=axis, keepdims=False)
+        return ndx.prod(self, axis=axis, keepdims=bool(keepdims))
 
     def max(self, axis: int | None = 0, keepdims: bool | None = False) -> ndx.Array:
         """See :py:func:`ndonnx.max` for documentation."""
-        return ndx.max(self, axis=axis, keepdims=False)
+        return ndx.max(self, axis=axis, keepdims=bool(keepdims))
 
     def min(self, axis: int | None = 0, keepdims: bool | None = False) -> ndx.Array:
         """See :py:func:`ndonnx.min` for documentation."""
-        return ndx.min(self, axis=axis, keepdims=False)
+        return ndx.min(self, axis=axis, keepdims=bool(keepdims))
 
     def all(self, axis: int | None = 0, keepdims: bool | None = False) -> ndx.Array:
         """See :py:func:`ndonnx.all` for documentation."""
-        return ndx.all(self, axis=axis, keepdims=False)
+        return ndx.all(self, axis=axis, keepdims=bool(keepdims))
 
     def any(self, axis: int | None = 0, keepdims: bool | None = False) -> ndx.Array:
         """See :py:func:`ndonnx.any` for documentation."""
-        return ndx.any(self, axis=axis, keepdims=False)
+        return ndx.any(self, axis=axis, keepdims=bool(keepdims))
 
 
 __all__ = [
